@@ -147,6 +147,17 @@ def fill_scales_for_dyadic_pyramid(info, target_chunk_size=64,
     max_downscale_level = max(max_downscale_level, 1)
     info["scales"] = [downscale_info(scale_level)
                       for scale_level in range(max_downscale_level)]
+    # The key is derived from the smallest voxel dimension of each scale. For
+    # anisotropic volumes two scales can round to the same key in the chosen
+    # unit (e.g. 0.8 mm and 1.2 mm), switch to a finer unit in that case.
+    units = list(LENGTH_UNITS)
+    while (len({scale_info["key"] for scale_info in info["scales"]})
+           != len(info["scales"])
+           and units.index(key_unit) + 1 < len(units)):
+        key_unit = units[units.index(key_unit) + 1]
+        for scale_info in info["scales"]:
+            scale_info["key"] = format_length(min(scale_info["resolution"]),
+                                              key_unit)
     return info
 
 
